@@ -17,6 +17,7 @@ type c08Phase struct {
 	target string
 	policy bool // the target restarts by policy
 	ticks  int
+	aux    map[string][]string // scripted auxiliary commands (shutdown.command)
 }
 
 func c08Phases() []c08Phase {
@@ -31,6 +32,9 @@ func c08Phases() []c08Phase {
 		{id: "slowstop", yaml: projectYAML(nil, PC{Name: "a", Lines: []string{"shutdown:", "  timeout_seconds: 2"}}),
 			procs: map[string]*ProcScript{"a": {OnTerm: "ignore"}}, target: "a", ticks: 3},
 		// no kill time-out: the stop request returns at once and the command takes 3 s to go down (Terminating meanwhile)
+		// a configured shutdown command that fails by itself (the command is then killed)
+		{id: "stopcmd-fail", yaml: projectYAML(nil, PC{Name: "a", Lines: []string{"shutdown:", "  command: \"stop-a\"", "  timeout_seconds: 2"}}),
+			procs: map[string]*ProcScript{"a": daemon()}, target: "a", ticks: 3, aux: map[string][]string{"stop-a": {"fail"}}},
 		{id: "slowdie", yaml: projectYAML(nil, PC{Name: "a"}), procs: map[string]*ProcScript{"a": {DieAfter: 3 * time.Second}}, target: "a", ticks: 4},
 	}
 }
@@ -47,7 +51,7 @@ func c08Scenarios(tier string) []*Scenario {
 				}
 			}
 		}
-		sc := &Scenario{ID: "c08-" + ph.id + "-" + id, YAML: ph.yaml, Procs: ph.procs, K: k, TickBudget: ph.ticks, API: threads, Idle: 15 * time.Second}
+		sc := &Scenario{ID: "c08-" + ph.id + "-" + id, YAML: ph.yaml, Procs: ph.procs, K: k, TickBudget: ph.ticks, API: threads, Idle: 15 * time.Second, Aux: ph.aux}
 		seq := len(threads) == 1
 		hist := ph.id + ":" + id
 		sc.Check = func(w *World) []Violation {
